@@ -67,7 +67,7 @@ prop(
     assumptions=['codecs (PyTables, netCDF4, xdrfile, dcdplugin, printf-style text formatting) store what they are given', 'unit factors 10 / 0.1 between nm and angstrom'],
     explanation='Writer call-site obligations for all 13 savers x {1,3} frames x {cell, no cell}; codecs bounded.',
     technique='contract-based deductive verification: symbolic execution of the real Python source against sidecar contracts, VCs to z3/cvc5 (writer call-site plumbing); bounded save/load round trip with an independent byte-level decoder as labelled stand-in for the codecs',
-    level_text="Deductive core: every save_* feeds its writer the trajectory's fields converted to the format's native unit (unit table from the format specifications), frame i with frame i, input unmodified, and the extension table dispatches correctly (all paths, symbolic force_overwrite and cell conditions); on the way back, read_as_traj of the pure-Python readers (hdf5, netcdf, mdcrd, xyz, lammpstrj, arc, lh5) converts coordinates and cell lengths native->nm exactly once and passes angles and stored times through, so the two unit factors cancel. Two codecs are verified as encode/decode pairs: a DCD frame written by write_dcdstep is read back by read_dcdstep (whole X/Y/Z blocks, unit cell, exact byte count, header counters) for every atom count, over a segment model of the file; a TRR record written by write_trr is read back by read_trr (step, time, lambda, box, coordinates, velocities, forces, header sizes of the format, whole record consumed) for 1-3 atoms with symbolic values, over a typed item stream standing for the XDR primitives. The unit-cell lines of a LAMMPS dump: write_box emits the header, bounds and tilt factors the LAMMPS convention prescribes (symbolic lengths, angles, corner) and the real _read returns the written lengths and angles. Two text codecs end to end: what the xyz and lammpstrj writers emit for two symbolic frames is accepted by the readers' own one-frame parsers and comes back with every coordinate within half a unit of the last printed decimal (0.0005 A; number formatting is the only assumed codec step) and the lammpstrj cell exactly. The other codecs (text layouts, XTC compression, NetCDF/HDF5 libraries), the text parsers and the Cython file classes are covered by the bounded round-trip check only, which reads the bytes with an independent decoder: level 'other' because an mdtraj part of the critical path is bounded-only.",
+    level_text="Deductive core: every save_* feeds its writer the trajectory's fields converted to the format's native unit (unit table from the format specifications), frame i with frame i, input unmodified, and the extension table dispatches correctly (all paths, symbolic force_overwrite and cell conditions); on the way back, read_as_traj of the pure-Python readers (hdf5, netcdf, mdcrd, xyz, lammpstrj, arc, lh5) converts coordinates and cell lengths native->nm exactly once and passes angles and stored times through, so the two unit factors cancel. Two codecs are verified as encode/decode pairs: a DCD frame written by write_dcdstep is read back by read_dcdstep (whole X/Y/Z blocks, unit cell, exact byte count, header counters) for every atom count, over a segment model of the file; a TRR record written by write_trr is read back by read_trr (step, time, lambda, box, coordinates, velocities, forces, header sizes of the format, whole record consumed) for 1-3 atoms with symbolic values, over a typed item stream standing for the XDR primitives. The unit-cell lines of a LAMMPS dump: write_box emits the header, bounds and tilt factors the LAMMPS convention prescribes (symbolic lengths, angles, corner) and the real _read returns the written lengths and angles. Two text codecs end to end: what the xyz and lammpstrj writers emit for two symbolic frames is accepted by the readers' own one-frame parsers and comes back with every coordinate within half a unit of the last printed decimal (0.0005 A; number formatting is the only assumed codec step) and the lammpstrj cell exactly. The other codecs (the remaining text layouts mdcrd, gro, pdb, arc, rst7; XTC compression; the NetCDF/HDF5 libraries), the text parsers and the Cython file classes are covered by the bounded round-trip check only, which reads the bytes with an independent decoder: level 'other' because an mdtraj part of the critical path is bounded-only.",
     level_note='Trusted: VC generator, traced-array numpy model, in_units_of factor table, third-party codecs.',
 )
 
